@@ -1,6 +1,7 @@
 //@@INCLUDE _shared/header.rs
 //@@INCLUDE _shared/ispec.rs
 //@@INCLUDE _shared/num_bigint.rs
+//@@INCLUDE _shared/std_gaps.rs
 pub mod axioms {
     use vstd::prelude::*;
     verus! {
@@ -41,11 +42,6 @@ pub mod expr {
     use crate::*;
     verus! {
     broadcast use {vstd::std_specs::hash::group_hash_axioms, crate::axioms::axiom_string_key_model};
-
-    // std gaps (ASSUMED)
-    pub assume_specification<T, U, F: FnOnce(T) -> U>[ Option::<T>::map_or ](o: Option<T>, default: U, f: F) -> (r: U)
-        requires o is Some ==> call_requires(f, (o->0,)),
-        ensures (match o { None => r == default, Some(x) => call_ensures(f, (x,), r) });
 
     // ---- wrappers for the two `&dyn Fn` provider call-backs (R17): ASSUMED to be pure functions of their query
     pub uninterp spec fn query_var(p: &StaticallyKnownProvider, level: usize, hierarchy: Seq<String>) -> bool;
